@@ -37,6 +37,7 @@ impl ConnectionType {
         match s {
             "h" | "horizontal" => Self::Horizontal,
             "v" | "vertical" => Self::Vertical,
+            "corner" => Self::Corner,
             _ => Self::Straight,
         }
     }
@@ -299,6 +300,7 @@ impl Connector {
         let mut element = element;
         element.remove_attrs(&[
             "x1", "y1", "x2", "y2", "xy1", "xy2", "points", "x", "y", "xy", "cx", "cy", "cxy",
+            "dx", "dy", "dxy",
         ]);
         Ok(Self {
             source_element: element,
@@ -342,6 +344,9 @@ impl Connector {
                             .scalarspec(ScalarSpec::Maxy)
                             .min(end_bb.scalarspec(ScalarSpec::Maxy));
                         (overlap_top + overlap_bottom) / 2.
+                    } else if self.start_el.is_some() {
+                        // (a point given at the other end is used as it is written)
+                        y2
                     } else {
                         y1
                     };
@@ -373,6 +378,8 @@ impl Connector {
                             .scalarspec(ScalarSpec::Maxx)
                             .min(end_bb.scalarspec(ScalarSpec::Maxx));
                         (overlap_left + overlap_right) / 2.
+                    } else if self.start_el.is_some() {
+                        x2
                     } else {
                         x1
                     };
